@@ -37,6 +37,50 @@ theorem bind_requires_parent {st st' : State κ} {pn rn : Bytes} {pa ra : Addr} 
   | false => exact Or.inl rfl
   | true => exact Or.inr (hres hr)
 
+/-- The same clause stated for the name that is actually bound, whatever parent the message
+mentions: a successful `BindName` binds a name of at least two segments whose IMMEDIATE parent
+(the bound name minus its first segment) is the normalized parent name of the message, resolves
+in the state before, and — if restricted — belongs to the signer.  This is what
+`MsgBindNameRequest.ValidateBasic` refusing a record name with a "." buys: the bound name cannot
+reach below any other name than the checked parent.  (Reachable state, collision-free hash: the
+raw parent name and its normalized form then have the same key.) -/
+theorem bind_under_immediate_parent (hH : Function.Injective cfg.H) {st st' : State κ}
+    (hI : Inv cfg st) {pn rn : Bytes} {pa ra : Addr} {r : Bool}
+    (h : step cfg st (.bind pn pa rn ra r) = .ok st') :
+    ∃ name, normalize cfg (rn ++ dot :: pn) = .ok name ∧ 2 ≤ (splitDot name).length ∧
+      immediateParent name = normalizeName pn ∧
+      bindAllowed (getRecordByName cfg st (immediateParent name)) pa = true := by
+  have hvb : validateBasic cfg (.bind pn pa rn ra r) = true := by
+    unfold step at h
+    split at h
+    · cases h
+    · rename_i hv; simpa using hv
+  have hfree : dot ∉ rn := by
+    simp only [validateBasic, Bool.and_eq_true, Bool.not_eq_true', List.contains_eq_mem,
+      decide_eq_false_iff_not] at hvb
+    exact hvb.1.2
+  obtain ⟨par, name, k0, hpar, hres, hn, -⟩ := bindName_ok cfg (step_ok_cases cfg h)
+  have hname := normalize_eq_normalizeName cfg hn
+  have hsplit : splitDot (rn ++ dot :: pn) = rn :: splitDot pn := by
+    have := splitDot_append_dotfree rn hfree (dot :: pn) [] (splitDot pn) (splitDot_cons_dot pn)
+    simpa using this
+  have hs : splitDot name = normSeg rn :: (splitDot pn).map normSeg := by
+    rw [hname, splitDot_normalizeName, hsplit, List.map_cons]
+  have hne : (splitDot pn).map normSeg ≠ [] := by simpa using splitDot_ne_nil pn
+  have hip : immediateParent name = normalizeName pn := by
+    unfold immediateParent; rw [hs, List.tail_cons, normalizeName_eq]
+  refine ⟨name, hn, ?_, hip, ?_⟩
+  · rw [hs, List.length_cons]
+    have : 0 < ((splitDot pn).map normSeg).length := List.length_pos_iff.mpr hne
+    omega
+  · obtain ⟨k, hk, hg⟩ := getRecordByName_some cfg hpar
+    have hkey := key_normalizeName_of_resolves cfg hH hk (hI.keyed k par hg) (hI.lower cfg k par hg)
+    rw [hip, getRecordByName_eq cfg hkey, hg]
+    simp only [bindAllowed, Bool.or_eq_true, Bool.not_eq_true', beq_iff_eq]
+    cases hr : par.restricted with
+    | false => exact Or.inl rfl
+    | true => exact Or.inr (hres hr)
+
 /-- Only the owner of the record the name resolves to, or governance, modifies a name. -/
 theorem modify_only_owner_or_gov {st st' : State κ} {a ad : Addr} {n : Bytes} {r : Bool}
     (h : step cfg st (.modify a n ad r) = .ok st') :
@@ -444,6 +488,8 @@ example : Inv wcfg witnessState := inv_reachable wcfg _
 /-- each message kind succeeds on a concrete state (the `= .ok _` hypotheses are satisfiable) -/
 example : (step wcfg {} (.root "G" de "A" false)).toBool = true := by decide
 example : (step wcfg witnessState (.bind de "A" bc "C" true)).toBool = true := by decide
+/-- a record name that itself has several segments is refused (it would reach below `abc.de`) -/
+example : (step wcfg witnessState (.bind de "A" (bc ++ dot :: abc) "C" true)).toBool = false := by decide
 example : (step wcfg witnessState (.modify "G" abcde "C" true)).toBool = true := by decide
 example : (step wcfg witnessState (.modify "B" dea "C" false)).toBool = true := by decide
 example : (step wcfg witnessState (.delete abcde "A")).toBool = true := by decide
